@@ -59,6 +59,20 @@ func c16Universe(depth int) map[string]interface{} {
 		"mi": map[string]int{"z": 0, "o": 1}, "ms": map[string]string{"e": "", "a": "x"}, "mb": map[string]bool{"f": false, "t": true},
 		"A": "map-A",
 	}
+	// several struct types that share field names at different positions (and no type name)
+	m["sa"] = struct {
+		Name string
+		Age  int
+	}{"ann", 30}
+	m["sb"] = struct {
+		ID   int
+		Name string
+	}{7, "bob"}
+	m["sc"] = struct {
+		Age  float64
+		ID   string
+		Name bool
+	}{1.5, "id", true}
 	if depth > 0 {
 		m["k"] = c16Universe(depth - 1)
 		m["s"] = c16S{A: 7, I64: 1 << 60, F: 0.1, Str: "fs", M: c16Universe(depth - 1), T: c16Time, Sl: c16Slice, b: 3}
@@ -67,7 +81,7 @@ func c16Universe(depth int) map[string]interface{} {
 	return m
 }
 
-var c16Keys = []string{"k", "s", "A", "b", "z", "q", "n", "np", "len", "now", "i", "i32", "i64", "f64", "str", "e", "bl", "t", "tm", "sl", "f", "mi", "ms", "mb", "M", "o", "a", "I64", "F", "Str", "Z", "Np", "T", "Sl", "x", "Missing"}
+var c16Keys = []string{"k", "s", "A", "b", "z", "q", "n", "np", "len", "now", "i", "i32", "i64", "f64", "str", "e", "bl", "t", "tm", "sl", "f", "mi", "ms", "mb", "M", "o", "a", "I64", "F", "Str", "Z", "Np", "T", "Sl", "x", "Missing", "sa", "sb", "sc", "Name", "Age", "ID"}
 
 var c16Configs = map[string]func() map[string]interface{}{
 	"full":  func() map[string]interface{} { return c16Universe(3) },
@@ -149,6 +163,19 @@ func refMember(base interface{}, key string, assert bool) wres {
 			return wres{val: v}
 		}
 		return wres{val: nil}
+	}
+	if rv := reflect.ValueOf(base); rv.Kind() == reflect.Struct {
+		// any struct (named or anonymous): exported field, missing field -> error, unexported -> not fixed
+		f, ok := rv.Type().FieldByName(key)
+		if !ok {
+			return wres{isErr: true}
+		}
+		if f.PkgPath != "" {
+			return wres{unspec: true}
+		}
+		return wres{val: rv.FieldByName(key).Interface()}
+	}
+	switch b := base.(type) {
 	case c16S:
 		f, ok := reflect.TypeOf(b).FieldByName(key)
 		if !ok {
@@ -223,6 +250,9 @@ func sameValue(got, want interface{}) (bool, string) {
 	case c16S:
 		s, ok := got.(c16S)
 		return ok && reflect.DeepEqual(s, w), "the same struct"
+	}
+	if reflect.ValueOf(want).Kind() == reflect.Struct {
+		return got != nil && reflect.TypeOf(got) == reflect.TypeOf(want) && reflect.DeepEqual(got, want), "the same struct"
 	}
 	rv := reflect.ValueOf(want)
 	switch rv.Kind() {
@@ -341,7 +371,7 @@ func runC16(w *eng.W) {
 		segs = append(segs, "."+k, "!."+k)
 	}
 	var deepSegs []string
-	for _, k := range []string{"k", "s", "M", "q", "n", "np", "z", "i64", "mi", "A", "b", "Missing", "str"} {
+	for _, k := range []string{"k", "s", "M", "q", "n", "np", "z", "i64", "mi", "A", "b", "Missing", "str", "sa", "sb", "Name"} {
 		deepSegs = append(deepSegs, "."+k, "!."+k)
 	}
 	for _, cfg := range []string{"full", "nulls", "empty", "none"} {
